@@ -12,6 +12,7 @@ restricted-growth strings of length C with at most P blocks; `schedules()` enume
 
 SerialMP is the trivial in-process pool (no fork) used where the pool is irrelevant to the property.
 """
+import atexit
 import itertools
 import os
 import pickle
@@ -22,6 +23,9 @@ import traceback
 
 from . import enum
 
+_KEEP = []
+_ORPHANS = []       # pools left open by the library when a controlled section ended (still alive)
+MAX_ORPHANS = 3
 TRACE = []          # seams running inside a worker (or the parent) append records here
 
 
@@ -64,7 +68,7 @@ def _recv(fd, deadline=120.0):
 
 
 class _Worker:
-    def __init__(self, index):
+    def __init__(self, index, initializer=None, initargs=()):
         self.index = index
         p2c_r, p2c_w = os.pipe()
         c2p_r, c2p_w = os.pipe()
@@ -79,6 +83,10 @@ class _Worker:
                 global _current
                 _current = _Proc((index + 1,))
                 del TRACE[:]
+                _KEEP.append(_ORPHANS[:])            # pools of the parent are not this process's to stop
+                del _ORPHANS[:]
+                if initializer is not None:
+                    initializer(*initargs)
                 while True:
                     msg = _recv(p2c_r, deadline=3600.0)
                     if msg[0] == 'stop':
@@ -134,17 +142,21 @@ def _try_pickle(e):
 
 
 class ControlledPool:
-    def __init__(self, owner, processes):
+    def __init__(self, owner, processes, initializer=None, initargs=(), maxtasksperchild=None, context=None):
         self.owner = owner
         self.P = processes or (os.cpu_count() or 1)
         self.pool_index = len(owner.pools)
         owner.pools.append({'P': self.P, 'chunks': [], 'ntasks': []})
-        self.workers = [_Worker(i) for i in range(self.P)]
+        self.workers = [_Worker(i, initializer, tuple(initargs)) for i in range(self.P)]
         self.consumed = 0
         self.closed = False
+        self.stopped = False
+        self.owner_pid = os.getpid()
 
     # -- multiprocessing.Pool surface used by emd -------------------------------------------------
     def starmap(self, func, iterable, chunksize=None):
+        if self.closed or self.stopped:
+            raise ValueError('Pool not running')
         tasks = [tuple(t) for t in iterable]
         if not tasks:
             return []
@@ -176,6 +188,15 @@ class ControlledPool:
     def map(self, func, iterable, chunksize=None):
         return self.starmap(func, [(x,) for x in iterable], chunksize)
 
+    def imap(self, func, iterable, chunksize=1):
+        return iter(self.starmap(func, [(x,) for x in iterable], chunksize))
+
+    def apply(self, func, args=(), kwds=None):
+        if kwds:
+            import functools
+            func = functools.partial(func, **kwds)
+        return self.starmap(func, [tuple(args)], 1)[0]
+
     def close(self):
         self.closed = True
         self._shutdown()
@@ -187,6 +208,9 @@ class ControlledPool:
         self._shutdown()
 
     def _shutdown(self):
+        if os.getpid() != self.owner_pid:           # a forked copy of the pool object: the workers are not ours
+            return
+        self.stopped = True
         for w in self.workers:
             w.stop()
 
@@ -212,8 +236,8 @@ class ControlledMP:
         self.pools = []
         self.log = []
 
-    def Pool(self, processes=None, *a, **k):
-        pool = ControlledPool(self, processes)
+    def Pool(self, processes=None, initializer=None, initargs=(), maxtasksperchild=None, context=None):
+        pool = ControlledPool(self, processes, initializer, initargs, maxtasksperchild, context)
         self._live = getattr(self, '_live', []) + [pool]
         return pool
 
@@ -299,5 +323,19 @@ class installed:
 
     def __exit__(self, *a):
         self.S.mp = self.old
+        # a pool the library neither closed nor terminated stays usable (a library that keeps a pool between calls
+        # must find it alive at the next call, as with the real multiprocessing); only the oldest such pools are
+        # reaped so that calls which raise before closing their pool do not leak workers without bound
         for p in getattr(self.mp_obj, '_live', []):
-            p._shutdown()
+            if not p.stopped:
+                _ORPHANS.append(p)
+        while len(_ORPHANS) > MAX_ORPHANS:
+            _ORPHANS.pop(0)._shutdown()
+
+
+def reap_orphans():
+    while _ORPHANS:
+        _ORPHANS.pop(0)._shutdown()
+
+
+atexit.register(reap_orphans)
